@@ -157,20 +157,21 @@ AnyMd(tabs) == \E k \in 1..Len(tabs) : tabs[k].omd.has \/ tabs[k].smd.has
 MergeMdP(a, b, ax, ids, policy) ==   \* policy "default" (prefer receiver) or "custom" (prefer other)
   IF policy = "custom" THEN MergeMd(b, a, ax, ids) ELSE MergeMd(a, b, ax, ids)
 MergeModel(tabs, a) ==
-  IF (a.mdf = "none" \/ ~AnyMd(tabs)) /\ a.sample = "union" /\ a.observation = "union"
+  IF ((a.smf = "none" /\ a.omf = "none") \/ ~AnyMd(tabs)) /\ a.sample = "union" /\ a.observation = "union"
   THEN MergeFast(tabs)
   ELSE LET g == MergeGeneral(tabs[1], tabs[2], a.sample, a.observation) IN
-       [g EXCEPT !.omd = IF a.mdf = "none" THEN [has |-> TRUE, rows |-> [k \in 1..Len(g.obs) |-> <<>>]]
-                         ELSE MergeMdP(tabs[1], tabs[2], "observation", g.obs, a.mdf),
-                 !.smd = IF a.mdf = "none" THEN [has |-> TRUE, rows |-> [k \in 1..Len(g.samp) |-> <<>>]]
-                         ELSE MergeMdP(tabs[1], tabs[2], "sample", g.samp, a.mdf)]
-MdCallsModel(tabs, g, policy) ==
+       [g EXCEPT !.omd = IF a.omf = "none" THEN [has |-> TRUE, rows |-> [k \in 1..Len(g.obs) |-> <<>>]]
+                         ELSE MergeMdP(tabs[1], tabs[2], "observation", g.obs, a.omf),
+                 !.smd = IF a.smf = "none" THEN [has |-> TRUE, rows |-> [k \in 1..Len(g.samp) |-> <<>>]]
+                         ELSE MergeMdP(tabs[1], tabs[2], "sample", g.samp, a.smf)]
+MdCallsModel(tabs, g, a) ==
   LET one(ax, id) ==
         LET sm == IF Has(tabs[1], ax, id) /\ Md(tabs[1], ax).has THEN Md(tabs[1], ax).rows[Idx(Ids(tabs[1], ax), id)] ELSE <<>>
             om == IF Has(tabs[2], ax, id) /\ Md(tabs[2], ax).has THEN Md(tabs[2], ax).rows[Idx(Ids(tabs[2], ax), id)] ELSE <<>>
         IN [axis |-> ax, id |-> id, self_md |-> sm, other_md |-> om,
             ret |-> IF Has(tabs[2], ax, id) /\ Md(tabs[2], ax).has THEN om ELSE sm]
-  IN [k \in 1..Len(g.samp) |-> one("sample", g.samp[k])] \o [k \in 1..Len(g.obs) |-> one("observation", g.obs[k])]
+  IN (IF a.smf = "custom" THEN [k \in 1..Len(g.samp) |-> one("sample", g.samp[k])] ELSE <<>>)
+     \o (IF a.omf = "custom" THEN [k \in 1..Len(g.obs) |-> one("observation", g.obs[k])] ELSE <<>>)
 
 ConcatModel(tabs, ax) ==
   LET oth == Other(ax)
@@ -397,7 +398,8 @@ MutFacts(fmt, muts) ==
       shape_matches_ids |-> ~has(LAMBDA m : Pre(m, "shape:")),
       coords_in_shape |-> ~has(LAMBDA m : m \in {"coord:row_out", "coord:col_out", "coord:negative", "coord:obs_index_out",
                                                   "coord:samp_index_out", "coord:obs_index_negative"}),
-      element_types_ok |-> ~has(LAMBDA m : Pre(m, "type:") \/ m \in {"coord:index_text", "coord:value_text", "coord:malformed"}),
+      element_types_ok |-> ~has(LAMBDA m : Pre(m, "type:") \/ m \in {"coord:index_text", "coord:value_text", "coord:malformed",
+                                                                        "coord:col_index_float", "coord:row_index_float", "coord:col_index_text"}),
       ids_nonempty_unique |-> ~has(LAMBDA m : m \in {"ids:dup_row", "ids:dup_col", "ids:blank_row", "ids:blank_col",
                                                       "ids:dup_obs", "ids:dup_samp", "ids:blank_obs", "ids:blank_samp"}),
       metadata_object_or_null |-> ~has(LAMBDA m : m \in {"md:row_text", "md:col_list", "md:row_number"}),
@@ -482,7 +484,8 @@ ModelEvent(h, st) ==
               r == Fresh(MergeModel(tabs, a))
           IN NewEv(st, h, wantS # {} /\ wantO # {} /\ \A k \in 1..Len(tabs) : ~IsEmptyTable(tabs[k]), r,
                    [ret_is_recv |-> FALSE, alt_ran |-> FALSE, alt_out |-> "ok", alt |-> r,
-                    mdcalls |-> IF a.mdf = "custom" /\ Len(tabs) = 2 THEN MdCallsModel(tabs, r, a.mdf) ELSE <<>>])
+                    mdcalls |-> IF (a.smf = "custom" \/ a.omf = "custom") /\ Len(tabs) = 2 /\ AnyMd(tabs)
+                                THEN MdCallsModel(tabs, r, a) ELSE <<>>])
      [] st.call = "concat" ->
           LET tabs == <<pre>> \o [k \in 1..Len(a.others) |-> h[a.others[k]]] IN
           NewEv(st, h, ConcatDisjoint(tabs, a.axis) /\ \A k \in 1..Len(tabs) : ~IsEmptyTable(tabs[k]),
@@ -716,7 +719,9 @@ StepsFor(call, h, recv, res, full) ==
                                       ids |-> FirstOf(Ids(t, ax))]) :
                    f \in (IF full THEN {"double", "square", "zero_ge2", "sub_min", "times_len", "by_md", "by_id"}
                           ELSE {"zero_ge2", "sub_min"}), ip \in BOOLEAN} : ax \in Axes}
-    [] call = "norm" -> {St(call, recv, res, [axis |-> ax, inplace |-> ip]) : ax \in Axes, ip \in BOOLEAN}
+    [] call = "norm" -> {St(call, recv, res, [axis |-> ax, inplace |-> ip, via |-> "method"]) : ax \in Axes, ip \in BOOLEAN}
+                        \cup (IF full THEN {St(call, recv, res, [axis |-> ax, inplace |-> FALSE, via |-> "cli"]) : ax \in Axes}
+                              ELSE {})
     [] call = "pa" -> {St(call, recv, res, [inplace |-> ip]) : ip \in BOOLEAN}
     [] call = "rankdata" ->
          {St(call, recv, res, [axis |-> ax, inplace |-> ip, method |-> m]) :
@@ -724,12 +729,14 @@ StepsFor(call, h, recv, res, full) ==
             m \in (IF full THEN {"average", "min", "max", "dense", "ordinal"} ELSE {"average"})}
     [] call = "merge" ->
          IF "b" \notin DOMAIN h \/ recv = "b" THEN {}
-         ELSE {St(call, recv, res, [others |-> <<"b">>, sample |-> sm, observation |-> om, mdf |-> f]) :
+         ELSE {St(call, recv, res, [others |-> <<"b">>, sample |-> sm, observation |-> om, smf |-> f[1], omf |-> f[2]]) :
                  sm \in {"union", "intersection"}, om \in {"union", "intersection"},
-                 f \in (IF full THEN {"default", "none", "custom"} ELSE {"default"})}
+                 f \in (IF full THEN {<<"default", "default">>, <<"none", "none">>, <<"custom", "custom">>,
+                                      <<"none", "default">>, <<"default", "none">>, <<"custom", "none">>}
+                        ELSE {<<"default", "default">>})}
               \cup (IF "c" \in DOMAIN h /\ ~AnyMd(<<h[recv], h["b"], h["c"]>>)
                     THEN {St(call, recv, res, [others |-> <<"b", "c">>, sample |-> "union", observation |-> "union",
-                                                mdf |-> "none"])}
+                                                smf |-> "none", omf |-> "none"])}
                     ELSE {})
     [] call = "concat" ->
          IF "b" \notin DOMAIN h \/ recv = "b" THEN {}
@@ -761,18 +768,19 @@ StepsFor(call, h, recv, res, full) ==
                                     groups |-> gm, strict |-> FALSE]) : gm \in maps, md \in {"add", "divide"}}
            : ax \in Axes}
     [] call = "subsample" ->
-         {St(call, recv, res, [n |-> n, axis |-> ax, by_id |-> bi, with_replacement |-> wr, seed |-> sd]) :
-            n \in (IF full THEN {1, 2, 3, 5, 9} ELSE {2}), ax \in Axes,
-            bi \in BOOLEAN, wr \in BOOLEAN, sd \in (IF full THEN {0, 1, 7} ELSE {0})}
-         \ {x \in {St(call, recv, res, [n |-> n, axis |-> ax, by_id |-> TRUE, with_replacement |-> TRUE, seed |-> sd]) :
-                     n \in {1, 2, 3, 5, 9}, ax \in Axes, sd \in {0, 1, 7}} : TRUE}
+         {x \in {St(call, recv, res, [n |-> n, axis |-> ax, by_id |-> bi, with_replacement |-> wr, seed |-> sd, via |-> v]) :
+                   n \in (IF full THEN {1, 2, 3, 5, 9} ELSE {2}), ax \in Axes,
+                   bi \in BOOLEAN, wr \in BOOLEAN, sd \in (IF full THEN {0, 1, 7} ELSE {0}),
+                   v \in (IF full THEN {"method", "generate_subsamples"} ELSE {"method"})} :
+              ~(x.args.by_id /\ x.args.with_replacement)
+              /\ (x.args.via = "generate_subsamples" => (~x.args.with_replacement /\ x.args.seed = 0))}
     [] call = "rt_hdf5" ->
-         {St(call, recv, res, [compress |-> c, save_via |-> sv, load_via |-> lv]) :
-            c \in BOOLEAN, sv \in (IF full THEN {"to_hdf5", "save_table", "cli"} ELSE {"to_hdf5"}),
+         {St(call, recv, res, [compress |-> c, save_via |-> sv, load_via |-> lv, date |-> d]) :
+            d \in (IF full THEN {"us", "nous"} ELSE {"us"}), c \in BOOLEAN, sv \in (IF full THEN {"to_hdf5", "save_table", "cli"} ELSE {"to_hdf5"}),
             lv \in (IF full THEN {"load_table", "parse_table", "from_hdf5"} ELSE {"load_table"})}
     [] call = "rt_json" ->
-         {St(call, recv, res, [mode |-> md, gz |-> g, load_via |-> lv]) :
-            md \in {"string", "direct_io"}, g \in (IF full THEN BOOLEAN ELSE {FALSE}),
+         {St(call, recv, res, [mode |-> md, gz |-> g, load_via |-> lv, date |-> d]) :
+            d \in {"us", "nous"}, md \in {"string", "direct_io"}, g \in (IF full THEN BOOLEAN ELSE {FALSE}),
             lv \in (IF full THEN {"load_table", "parse_table_handle", "parse_table_lines", "from_json_dict"}
                     ELSE {"load_table"})}
     [] call = "rt_tsv" ->
@@ -790,13 +798,14 @@ StepsFor(call, h, recv, res, full) ==
                subs == IF full THEN ((SubSeqsOf(ids) \cup {Reverse(x) : x \in SubSeqsOf(ids)}) \ {<<>>})
                                       \cup {FirstOf(ids) \o <<"zz">>}
                                       \cup (IF ids = <<>> THEN {} ELSE {<<ids[Len(ids)] \o "~x">>, RestOf(ids) \o <<ids[1] \o "~0">>})
-                       ELSE ({FirstOf(ids), Reverse(RestOf(ids))} \ {<<>>})
+                       ELSE ({FirstOf(ids), Reverse(RestOf(ids))}
+                             \cup (IF Len(ids) >= 9 THEN {<<ids[2], ids[9]>>, <<ids[9], ids[3], ids[1]>>} ELSE {})) \ {<<>>}
            IN {St(call, recv, res, [variant |-> v, fmt |-> IF v \in {"parse_table_json", "parse_table_json_lines", "cli_subset_json"}
                                                             THEN "json" ELSE "hdf5",
                                     ids |-> s, axis |-> ax]) :
                  v \in (IF full THEN {"from_hdf5", "from_hdf5_nomd", "parse_table_hdf5", "parse_table_json",
                                       "parse_table_json_lines", "cli_subset_hdf5", "cli_subset_json"}
-                        ELSE {"from_hdf5", "parse_table_json"}),
+                        ELSE {"from_hdf5", "parse_table_json", "cli_subset_json"}),
                  s \in subs} : ax \in Axes}
     [] call = "summary" ->
          LET SA(kind, ax, bin, f, n, m, obsv, qual) ==
@@ -822,7 +831,8 @@ StepsFor(call, h, recv, res, full) ==
          {St(call, recv, res, [kind |-> k, form |-> f]) :
             k \in {"dup_obs_adjacent", "dup_obs_apart", "dup_samp_adjacent", "dup_samp_apart", "too_few_obs", "too_many_obs",
                    "too_few_samp", "too_many_samp", "md_short_obs", "md_long_obs", "md_short_samp", "md_long_samp",
-                   "md_string_entry", "md_list_entry", "md_zero_entry", "md_emptystring_entry"},
+                   "md_string_entry", "md_list_entry", "md_zero_entry", "md_emptystring_entry",
+                   "zero_rows_matrix", "zero_cols_matrix"},
             f \in (IF full THEN {"dense_ndarray", "triples", "csr", "list_of_row_arrays"} ELSE {"dense_ndarray"})}
     [] call = "from_adjacency" ->
          {St(call, recv, res, [records |-> r, header |-> hd, input |-> i]) :
